@@ -279,6 +279,9 @@ package lua
 //@ ensures  arg0.reg == old(arg0.reg) && arg0.reg != nil && Inv_reg(arg0.reg) && arg0.currentFrame == old(arg0.currentFrame) && unchanged(arg0.currentFrame) && arg0.stack == old(arg0.stack) && $inv(arg0.stack) && $sp(arg0.stack) == old($sp(arg0.stack)) && arg0.G == old(arg0.G) && arg0.G != nil
 //@ ensures  forall i int :: 0 <= i && i < $sp(arg0.stack) ==> $frame(arg0.stack, i) == old($frame(arg0.stack, i)) && unchanged($frame(arg0.stack, i))
 //@ ensures  result <= arg0.reg.top - arg0.currentFrame.LocalBase && arg0.currentFrame.LocalBase <= arg0.reg.top
+// a host function that RETURNS (count >= 0) has handed control back to the thread it was called on (coroutine.resume returns
+// after the resumed coroutine yielded, ended or failed, and every such switch restores the resumer as current thread)
+//@ ensures  result >= 0 ==> arg0.G.CurrentThread == old(arg0.G.CurrentThread)
 // a coroutine and its resumer are different states with their own registries (representation of NewThread, assumed)
 //@ ensures  arg0.Parent != nil ==> Inv_api(arg0.Parent) && arg0.Parent != arg0 && arg0.Parent.reg != arg0.reg && arrid(arg0.Parent.reg.array) != arrid(arg0.reg.array) && arg0.Parent.currentFrame != arg0.currentFrame && (forall i int :: 0 <= i && i < $sp(arg0.stack) ==> arg0.Parent.currentFrame != $frame(arg0.stack, i))
 //@ modifies everything
@@ -316,6 +319,11 @@ package lua
 // ends the coroutine: control and the results go to the resumer, the coroutine is dead
 //@ let@"L.Parent != nil && L.stack.Sp() == 1" par = L.Parent
 //@ ensures  "last-activation-ends-the-coroutine": g >= 0 && par != nil && old($sp(L.stack)) == ite(tailcall, 2, 1) ==> result && L.Dead && L.G.CurrentThread == par && L.Parent == nil
+//@ ensures  "no-thread-switch-unless-it-says-so": !result ==> L.G == old(L.G) && L.G.CurrentThread == old(L.G.CurrentThread)
+// ... and it says so only for a yield it was allowed to honour (canyield: the caller runs in the outermost interpreter loop of
+// the coroutine) or when the host function was the last activation of the coroutine; a yield without that permission is an
+// error ("attempt to yield across metamethod/C-call boundary"), raised before anything is switched
+//@ ensures  "switch-needs-permission-or-last-activation": result ==> canyield || old($sp(L.stack)) == ite(tailcall, 2, 1)
 //@ ensures  !tailcall && !result ==> $sp(L.stack) == old($sp(L.stack)) - 1 && Inv_reg(L.reg) && L.reg == old(L.reg)
 //@ ensures  !tailcall && !result ==> (L.currentFrame == nil <==> $sp(L.stack) == 0)
 //@ ensures  L.currentFrame != nil ==> L.currentFrame.Fn != nil
@@ -332,11 +340,19 @@ package lua
 // OP_CALL: thin contract. What is proved: no implicit Go panic under the operand conditions, the call-stack
 // overflow and non-function checks precede the frame push, and the inlined pushCallFrame/initCallFrame copies
 // satisfy the contracts of their source functions (BLOCK obligations).
-//@ func jumpTable[OP_CALL] [C02 C07 C12]
+// C06: a yield (or the end of a coroutine) switches threads by leaving the interpreter loop; that is only meaningful in the
+// OUTERMOST loop of the coroutine (baseframe == nil, entered by threadRun). Inside a nested loop - Lua code called from a
+// host function: pcall, a metamethod, a sort comparator, a gsub callback, an iterator - Lua 5.1 raises "attempt to yield
+// across metamethod/C-call boundary", and so does callGFunction when it is told that it may not yield (canyield == false)
+//@ func jumpTable[OP_CALL] [C02 C06 C07 C12]
+//@ ensures  "a-thread-switch-only-in-the-outermost-loop": old(L.G).CurrentThread != old(L.G.CurrentThread) ==> baseframe == nil
+//@ raises when true
 //@ requires protosOK() && Frame(L) && L.stack != nil && $inv(L.stack) && L.G != nil && regsValid(L) && opA(inst) < nreg(L)
 //@ requires opB(inst) != 0 ==> lb(L) + opA(inst) + opB(inst) <= top(L)
 //@ requires opB(inst) == 0 ==> lb(L) + opA(inst) + 1 <= top(L)
 //@ requires fnsValid() && mtsValid(L) && framesValid(L) && tabsValid()
+// the running activation is on the call stack
+//@ requires $sp(L.stack) >= 1
 //@ modifies everything
 
 // ---------------------------------------------------------------------------
@@ -358,7 +374,7 @@ package lua
 
 // OP_TAILCALL: thin contract (no implicit Go panic; inlined closeUpvalues/initCallFrame/CopyRange copies satisfy
 // the contracts of their source functions).
-//@ func jumpTable[OP_TAILCALL] [C02 C03 C07 C12]
+//@ func jumpTable[OP_TAILCALL] [C02 C03 C06 C07 C12]
 // a tail call to a Lua function REUSES the caller's activation: same frame object, and the callee's frame starts at the
 // caller's Base (also when the caller is a vararg function, whose LocalBase lies above its variable arguments)
 //@ assert@"cf.LocalBase = base + (cf.LocalBase - lbase + 1)" cf == old(L.currentFrame) && cf.Base == old(L.currentFrame.Base) && cf.TailCall == old(L.currentFrame.TailCall) + 1
@@ -368,8 +384,12 @@ package lua
 //@ requires 0 <= L.currentFrame.ReturnBase && L.currentFrame.ReturnBase <= L.currentFrame.Base && L.currentFrame.Base < lb(L) && L.currentFrame.NRet >= -1
 // the running activation is the top frame of the call stack
 //@ requires $sp(L.stack) >= 1 && L.currentFrame == $frame(L.stack, $sp(L.stack) - 1)
+// a nested interpreter loop runs above the frame of the host function that started it (callR pushes the callee's frame on top)
+//@ requires baseframe != nil ==> $sp(L.stack) >= 2
+//@ ensures  "a-thread-switch-only-in-the-outermost-loop": old(L.G).CurrentThread != old(L.G.CurrentThread) ==> baseframe == nil
+//@ raises when true
 // a callable object reached through __call becomes the first argument of its handler, also in tail position
-//@ assert@"if callGFunction(L, true) {" meta ==> L.reg.array[RA + 1] == lv
+//@ assert@"if callGFunction(L, true, baseframe == nil) {" meta ==> L.reg.array[RA + 1] == lv
 //@ modifies everything
 
 // ---------------------------------------------------------------------------
@@ -399,6 +419,7 @@ package lua
 //@ requires L.Parent != nil ==> Inv_api(L.Parent) && L.Parent != L && L.Parent.reg != L.reg && arrid(L.Parent.reg.array) != arrid(L.reg.array) && L.Parent.currentFrame != L.currentFrame
 //@ requires L.currentFrame.LocalBase - L.currentFrame.ReturnBase >= 0 && L.currentFrame.LocalBase - L.currentFrame.ReturnBase <= L.reg.top - min(nargs, top(L) - base(L))
 //@ raises when L.Parent == nil || top(L.Parent) + 1 + nargs > cap(L.Parent.reg.array)
+//@ ensures  "returns-only-with-a-resumer": old(L.Parent) != nil
 //@ ensures  "switch": L.G.CurrentThread == old(L.Parent) && L.Parent == nil && (kill ==> L.Dead) && (!kill ==> L.Dead == old(L.Dead))
 //@ ensures  "flag": !old(L.wrapped) ==> old(L.Parent).reg.array[old(top(L.Parent))] == ite(haserror, LFalse, LTrue)
 //@ ensures  "count": top(old(L.Parent)) == old(top(L.Parent) + ite(L.wrapped, 0, 1) + xm(L, nargs))
